@@ -32,11 +32,26 @@ Example ex_fromutc : fromutc ex_d (10000000 + 5) = Ok (10000000 - 18000 + 5, tru
                      fromutc ex_d (10000000 - 3600 + 5) = Ok (10000000 - 18000 + 5, false).
 Proof. vm_compute. split; reflexivity. Qed.
 
-(* an imaginary wall time satisfying the hypothesis of resolve_imaginary's theorem *)
-Example ex_isolated : isolated (zone_of ex_d) (20000000 - 18000 + 5) = true /\
+(* an imaginary wall time is moved forward by the width of its gap (one hour) *)
+Example ex_resolve : preimages (zone_of ex_d) (20000000 - 18000 + 5) = [] /\
   resolve_imaginary ex_d (20000000 - 18000 + 5) false = Ok (20000000 - 14400 + 5, false).
 Proof. vm_compute. split; reflexivity. Qed.
 
 Example ex_data_at : in_data_range ex_raw 15000000 = true /\
   data_at ex_raw 15000000 = Some (-18000, 0, [69; 83; 84]).
 Proof. vm_compute. split; reflexivity. Qed.
+
+(* the obligations of the generic-layer theorem are consistent: a fixed-offset zone meets them *)
+From V Require Import tzfile.TzGenericModel tzfile.TzFixedThm.
+From Coq Require Import Lia.
+Example ex_generic_hyps : let UO := fun (_ : Z) (_ : bool) => 3600 in let DST := fun (_ : Z) (_ : bool) => 0 in
+  let z := fixed_zone 3600 in
+  wf_zone z = true /\ (forall x f, UO x f - DST x f = 3600) /\ (forall u, DST (u + 3600) true = off z u - 3600) /\
+  (forall w, g_is_ambiguous UO w = true <-> length (preimages z w) = 2%nat) /\
+  (forall a b, a < b -> local z a = local z b -> off z b = 3600) /\
+  (forall u, UO (local z u) (fold_spec z u) = off z u).
+Proof.
+  cbv zeta. repeat split; try reflexivity.
+  - intros H. discriminate.
+  - rewrite fixed_preimages_lemma. cbn. discriminate.
+Qed.
